@@ -120,7 +120,59 @@ Definition ksubset (k x : nat) : list nat := match unrank k x with Some l => l |
 Definition kneser_def (k x y : nat) : bool :=
   negb (x =? y) && (isize (ksubset k x) (ksubset k y) =? 0).
 
-(* bipartite Kneser graph for 2k <= n: the k-subset x < N is contained in the (n-k)-subset y - N *)
+(* bipartite Kneser graph as the code tests it: the intersection of the k-subset x < N and the
+   (n-k)-subset y - N has min(k, n-k) elements *)
 Definition bikneser_def (n k N x y : nat) : bool :=
-  let side (a b : nat) := (a <? N) && (N <=? b) && (isize (ksubset k a) (ksubset (n - k) (b - N)) =? k) in
+  let side (a b : nat) := (a <? N) && (N <=? b) &&
+    (isize (ksubset k a) (ksubset (n - k) (b - N)) =? Nat.min k (n - k)) in
+  side x y || side y x.
+
+(* SplitEdge and Contract on the abstract graph (the composition of C05's abstract edits) *)
+Definition a_split (a : agraph) (i j : nat) : agraph := a_add_vertex (a_remove_edge a i j) [i; j].
+
+Definition a_contract (a : agraph) (i j : nat) : agraph :=
+  a_remove_vertex (fold_left (fun b v => a_add_edge b i v) (a_neighbours a j) a) j.
+
+(* ------------------------------------------------------------------ line graph *)
+(* the edges of a in the order LineGraphDense meets them: 01 02 12 03 13 23 ... *)
+Definition edge_row (a : agraph) (y c : nat) : list (nat * nat) :=
+  map (fun x => (x, y)) (filter (fun x => adj a x y) (seq 0 c)).
+
+Definition edges_upto (a : agraph) (j i : nat) : list (nat * nat) :=
+  flat_map (fun y => edge_row a y y) (seq 0 j) ++ edge_row a j i.
+
+Definition edge_list (a : agraph) : list (nat * nat) := edges_upto a (an a) 0.
+
+Definition share (e f : nat * nat) : bool :=
+  (fst e =? fst f) || (fst e =? snd f) || (snd e =? fst f) || (snd e =? snd f).
+
+(* vertices p, q of the line graph are the p-th and q-th edge; adjacent iff distinct and sharing an endpoint *)
+Definition line_def (el : list (nat * nat)) (p q : nat) : bool :=
+  negb (p =? q) && share (nth p el (0, 0)) (nth q el (0, 0)).
+
+(* rook graph on the n x m board: cell (r, c) is vertex c * n + r (the edge r -- n+c of K_{n,m});
+   two cells are adjacent iff they share the row or the column *)
+Definition rook_def (n : nat) (p q : nat) : bool :=
+  negb (p =? q) && ((p mod n =? q mod n) || (p / n =? q / n)).
+
+(* the colexicographic rank of an ascending list c_0 < c_1 < ...: sum of C(c_t, t+1) *)
+Fixpoint crank_from (t : nat) (c : list nat) : nat :=
+  match c with
+  | [] => 0
+  | x :: r => binom x (S t) + crank_from (S t) r
+  end.
+Definition crank (c : list nat) : nat := crank_from 0 c.
+
+Definition disjointb (a b : list nat) : bool := forallb (fun e => negb (mem e b)) a.
+Definition subsetb (a b : list nat) : bool := forallb (fun e => mem e b) a.
+
+(* Kneser graph K(n,k): vertices = k-subsets of {0..n-1} numbered by colex rank, adjacent iff disjoint *)
+Definition kneser_set_def (k x y : nat) : bool :=
+  negb (x =? y) && disjointb (ksubset k x) (ksubset k y).
+
+(* bipartite Kneser graph: k-subset x < N on one side, (n-k)-subset y - N on the other, adjacent
+   iff one of the two sets contains the other *)
+Definition bikneser_set_def (n k N x y : nat) : bool :=
+  let side (a b : nat) := (a <? N) && (N <=? b) &&
+    (subsetb (ksubset k a) (ksubset (n - k) (b - N)) || subsetb (ksubset (n - k) (b - N)) (ksubset k a)) in
   side x y || side y x.
